@@ -27,9 +27,9 @@ def plan(tier):
         {"h": "sym_rollback_1_1", "spec": 1, "sym": "f1 in {1,2,3}"},
     ]
     t = [
-        {"h": "num_truncate_quotient_ii", "spec": 0, "sym": "x, y: isize"},
-        {"h": "num_floor_remainder_ii", "spec": 0, "sym": "x, y: isize"},
-        {"h": "num_euclidean_remainder_ii", "spec": 0, "sym": "x, y: isize"},
+        {"h": "num_truncate_quotient_edge", "spec": 0, "sym": "x within 3 of isize::MIN/MAX, |y| <= 3"},
+        {"h": "num_floor_remainder_edge", "spec": 0, "sym": "x within 3 of isize::MIN/MAX, |y| <= 3"},
+        {"h": "num_euclidean_remainder_ii", "spec": 0, "sym": "|x| <= 2^12, |y| <= 2^6"},
         {"h": "sym_rollback_redef_1", "spec": 1, "sym": "f1 in {1,2,3}"},
     ]
     return q + (t if tier == "thorough" else [])
